@@ -2,6 +2,7 @@ import Apko.Model.FS
 import Apko.Proofs.Lemmas.FSAtomic
 import Apko.Proofs.Lemmas.FSData
 import Apko.Proofs.Lemmas.FSInvStep
+import Apko.Proofs.Lemmas.FSShape
 import Apko.Generated.FS
 /-! C17 — the virtual file systems behave like a file system (theorems over `Model/FS.lean`) -/
 namespace Apko.C17
@@ -248,6 +249,122 @@ theorem write_then_readAt (c : Cfg) (fs : FS) (hi hj ino off : Nat) (p : Text) (
     have : 0 < p.length := List.length_pos_iff.mpr hp
     omega
   rw [readAt_window c _ hj hd p.length off h1 h2 h3 h4 hlen, h5, hdata, writeAt_read_back _ _ _ hp]
+
+/-! ### metadata reads return what was last set -/
+
+/-- content and metadata updates do not change what any path resolves to -/
+theorem resolve_stable_under_metadata (c : Cfg) (fs : FS) (i : Nat) (f : Inode → Inode)
+    (hd : ∀ n, (f n).dir = n.dir) (hc : ∀ n, (f n).children = n.children)
+    (hs : (f (fs.node i)).isSymlink = (fs.node i).isSymlink) (ht : ∀ n, (f n).target = n.target) (q : Text) :
+    getNode c (fs.modify i f) q = getNode c fs q :=
+  getNode_shape (ShapeEq.modify fs i f hd hc hs ht) c q
+
+/-- **meta_read_after_set** (mode): after `Chmod(p, perm)`, `Stat(p)` reports `perm` with the type
+bits of the node kept -/
+theorem chmod_then_stat (c : Cfg) (fs : FS) (hi : Inv fs) (p : Text) (perm : Nat) (hp : permOK perm)
+    (i : Ino) (h : getNode c fs p = .ok i) :
+    (step c fs (.chmod p perm)).2 = .ok .unit ∧
+    ∃ s, (step c (step c fs (.chmod p perm)).1 (.stat p)).2 = .ok (.stat s) ∧
+      s.mode = typeKeep (fs.node i).mode perm ∧ s.uid = (fs.node i).uid ∧ s.mtime = (fs.node i).mtime := by
+  have hl := getNode_live hi c p i h
+  have hst : getNode c (fs.modify i fun n => { n with mode := typeKeep n.mode perm }) p = .ok i := by
+    rw [resolve_stable_under_metadata c fs i (fun n => { n with mode := typeKeep n.mode perm })
+      (by intro n; rfl) (by intro n; rfl) (by simp [Inode.isSymlink, typeKeep_bit27 _ _ hp]) (by intro n; rfl)]
+    exact h
+  simp only [step, h, hst]
+  refine ⟨trivial, _, rfl, ?_⟩
+  simp [statOf, node_modify, hl]
+
+/-- **meta_read_after_set** (owner) -/
+theorem chown_then_stat (c : Cfg) (fs : FS) (hi : Inv fs) (p : Text) (uid gid : Int)
+    (i : Ino) (h : getNode c fs p = .ok i) :
+    ∃ s, (step c (step c fs (.chown p uid gid)).1 (.stat p)).2 = .ok (.stat s) ∧
+      s.uid = uid ∧ s.gid = gid ∧ s.mode = (fs.node i).mode := by
+  have hl := getNode_live hi c p i h
+  have hst : getNode c (fs.modify i fun n => { n with uid := uid, gid := gid }) p = .ok i := by
+    rw [resolve_stable_under_metadata c fs i (fun n => { n with uid := uid, gid := gid })
+      (by intro n; rfl) (by intro n; rfl) rfl (by intro n; rfl)]; exact h
+  simp only [step, h, hst]
+  refine ⟨_, rfl, ?_⟩
+  simp [statOf, node_modify, hl]
+
+/-- **meta_read_after_set** (modification time) -/
+theorem chtimes_then_stat (c : Cfg) (fs : FS) (hi : Inv fs) (p : Text) (t : Int)
+    (i : Ino) (h : getNode c fs p = .ok i) :
+    ∃ s, (step c (step c fs (.chtimes p t)).1 (.stat p)).2 = .ok (.stat s) ∧ s.mtime = t := by
+  have hl := getNode_live hi c p i h
+  have hst : getNode c (fs.modify i fun n => { n with mtime := t }) p = .ok i := by
+    rw [resolve_stable_under_metadata c fs i (fun n => { n with mtime := t })
+      (by intro n; rfl) (by intro n; rfl) rfl (by intro n; rfl)]; exact h
+  simp only [step, h, hst]
+  refine ⟨_, rfl, ?_⟩
+  simp [statOf, node_modify, hl]
+
+/-- **meta_read_after_set** (extended attributes) -/
+theorem setXattr_then_getXattr (c : Cfg) (fs : FS) (hi : Inv fs) (p : Text) (a : Name) (d : Text)
+    (i : Ino) (h : getNode c fs p = .ok i) :
+    (step c (step c fs (.setXattr p a d)).1 (.getXattr p a)).2 = .ok (.text d) := by
+  have hl := getNode_live hi c p i h
+  have hst : getNode c (fs.modify i fun n => { n with xattrs := setAssoc n.xattrs a d }) p = .ok i := by
+    rw [resolve_stable_under_metadata c fs i (fun n => { n with xattrs := setAssoc n.xattrs a d })
+      (by intro n; rfl) (by intro n; rfl) rfl (by intro n; rfl)]; exact h
+  simp only [step, setXattr, h, hst]
+  simp [node_modify, hl, lookup_setAssoc]
+
+theorem lookup_setChild (cs : List (Name × Ino)) (n : Name) (t : Ino) : (setChild cs n t).lookup n = some t := by
+  unfold setChild
+  induction cs with
+  | nil => simp [List.lookup]
+  | cons e rest ih =>
+    by_cases he : e.1 = n
+    · simpa [List.filter, he] using ih
+    · have : (n == e.1) = false := by simpa using fun h => he h.symm
+      simp only [List.filter, he, ne_eq, not_false_eq_true, decide_true, List.cons_append, List.lookup, this]
+      simpa using ih
+
+/-! ### hard links share content -/
+
+/-- **hardlinks_share**: a successful `Link(old, new)` enters under the new name the very inode the old
+name resolves to — contents, metadata and xattrs live in the inode, so every later read or write
+through either name acts on the same data. -/
+theorem hardlinks_share (c : Cfg) (fs : FS) (o n : Text) (pi t : Ino)
+    (hp : getNode c fs (dir n) = .ok pi) (ho : getNode c fs o = .ok t)
+    (hd : (fs.node pi).dir = true) (hnone : fs.lookup pi (base n) = none) :
+    (step c fs (.link o n)).2 = .ok .unit ∧ (step c fs (.link o n)).1.lookup pi (base n) = some t := by
+  have hpl := dir_lt fs pi hd
+  have hstep : step c fs (.link o n) =
+      ((fs.link pi (base n) t).modify t fun nd => { nd with nlink := nd.nlink + 1 }, .ok .unit) := by
+    simp [step, linkOp, parentOf, hp, ho, hd, hnone]
+  rw [hstep]
+  refine ⟨rfl, ?_⟩
+  simp only [FS.lookup, FS.link, node_modify, length_modify]
+  by_cases hpt : pi = t
+  · subst hpt; simp [hpl, lookup_setChild]
+  · simp [hpt, hpl, lookup_setChild]
+
+/-! ### statements kept at full strength but not proved here -/
+
+/-- component-wise lexicographic order of paths (the order of `fs.WalkDir`) -/
+def pathLt (a b : List Name) : Prop := a < b
+
+/-- `walk` lists every path once, in component-wise lexicographic order (unproved; needed by C06/C10) -/
+def walk_sorted_nodup : Prop :=
+  ∀ fs : FS, Inv fs → (walk fs).Pairwise (fun a b => pathLt a.1 b.1)
+
+/-- in `walk` every directory precedes its contents (unproved; needed by C06/C10) -/
+def walk_parents_first : Prop :=
+  ∀ (fs : FS) (l1 l2 : List (List Name × Ino)) (q : List Name) (n : Name) (i : Ino),
+    walk fs = l1 ++ (q ++ [n], i) :: l2 → q = [] ∨ ∃ y ∈ l1, y.1 = q
+
+/-- Impl resolution agrees with POSIX resolution on paths and link targets without `.`/`..` whose
+relative targets are only met under link-free prefixes (unproved; the deviation class is finding F17d,
+exercised by the correspondence suite through `Cfg.spec`) -/
+def resolve_posix_partial : Prop :=
+  ∀ (b : Backend) (fs : FS) (p : Text), Inv fs →
+    (∀ i : Nat, ∀ cmp ∈ parts (fs.node i).target, cmp ≠ dot ∧ cmp ≠ dotdot) →
+    (∀ i : Nat, (fs.node i).isSymlink = true → isAbs (fs.node i).target = true) →
+    (∀ cmp ∈ parts p, cmp ≠ dot ∧ cmp ≠ dotdot) →
+    getNode (Cfg.impl b) fs p = getNode (Cfg.spec b) fs p
 
 /-! ### ties to the source (regenerated on every run by `extract/fs.go`) -/
 
